@@ -129,3 +129,14 @@ CLO = "saito_core::core::consensus::block::Block::validate::{closure#0}::{closur
 M("C01", "c01_block_tx_gate", [CLO], "transactions with 0..=2 inputs, every transaction type, every slip type/amount; Transaction::validate's verdict is a free boolean")
 M("C01", "c01_block_double_spend", [CLO, "Slip::get_utxoset_key (layout model)"], "transactions with 1..=3 inputs (amounts, types, locations, owners symbolic), one arbitrary key already recorded for the block; three clauses per returning path")
 M("C01", "c01_pool_gate", ["saito_core::core::consensus::mempool::Mempool::add_transaction_if_validates (async body, every poll Ready)"], "all paths of the coroutine; Transaction::validate's verdict free")
+
+# ============================================================================== C05
+PROPERTY_ASSUMPTIONS["C05"] = [
+    "engine M over the two fork-choice kernels; BlockRing::is_empty and get_latest_block_id are free values; the blocks map holds exactly the blocks of the two segments (pairwise distinct hashes)",
+    "burn fees are bounded by the total token supply (7e17), so u64 sums of up to 8 of them cannot wrap; larger values are outside the claim",
+    "the composition (which segments add_block hands to the kernel, out-of-order arrival, tip height never decreasing over histories) is outside the claim",
+]
+M("C05", "c05_longest_chain_rule", ["saito_core::core::consensus::blockchain::Blockchain::is_new_chain_the_longest_chain"],
+  "new segment 1..=3 blocks x old segment 0..=3 blocks (thorough: up to 4), every id / burn fee / latest id; answer compared with the u128 reference rule")
+M("C05", "c05_gt_window", ["saito_core::core::consensus::blockchain::is_golden_ticket_count_valid_"],
+  "ancestor chains of depth 0..=6 with every golden-ticket flag pattern, current-block flag and bypass symbolic")
